@@ -38,7 +38,11 @@ def run_one(mod, case, verbose=False):
     try:
         with warnings.catch_warnings():
             warnings.simplefilter('ignore')
-            mod.run_case(case, R)
+            if case.get('kind') == '__suite__':
+                from . import suitemon
+                suitemon.run(mod.ID, R)
+            else:
+                mod.run_case(case, R)
         res = R.result()
     except BaseException as exc:  # noqa
         if isinstance(exc, KeyboardInterrupt):
